@@ -480,6 +480,7 @@ static void *tmain(void *p) {
   return NULL;
 }
 
+#ifndef XRLCALL_NO_MAIN
 int main(int argc, char **argv) {
   // usage: xrlcall MODE callfile outfile [extra]     MODE = full | fullleak | simple | flush | fresh | threads:T:yieldseed
   if (argc < 4) { fprintf(stderr, "usage\n"); return 2; }
@@ -574,3 +575,4 @@ int main(int argc, char **argv) {
   fclose(out);
   return 0;
 }
+#endif
